@@ -20,6 +20,7 @@ import ast
 
 from pyvc import arrays
 from .common import *  # noqa: F401,F403
+from . import defuse as DU
 from . import C02, detmodel as D
 from .C20 import normalise_expr
 
@@ -264,7 +265,6 @@ def flow(u: Unit):
         ("observation_seq", "pyxel/observation/observation.py::Observation._run_single_pipeline", "run_pipeline", ["self.pipeline_seed", "self._pipeline_seed"]),
         ("observation_dask.entry", "pyxel/observation/observation.py::Observation.run_pipelines", "run_pipelines_with_dask", ["self.pipeline_seed", "self._pipeline_seed"]),
         ("observation_dask.task", "pyxel/observation/observation_dask.py::_run_pipelines_array_to_datatree", "run_pipeline", ["pipeline_seed"]),
-        ("calibration.fitness", "pyxel/calibration/fitting_datatree.py::ModelFittingDataTree.fitness", "run_pipeline", ["self.pipeline_seed"]),
         ("calibration.apply", "pyxel/calibration/fitting_datatree.py::ModelFittingDataTree._apply_parameters", "run_pipeline", ["self.pipeline_seed"]),
         ("calibration", "pyxel/calibration/calibration.py::Calibration.run_calibration", "ModelFittingDataTree", ["self.pipeline_seed", "self._pipeline_seed"]),
     ]
@@ -283,22 +283,43 @@ DETAIL = 'Calibration.run_calibration builds ModelFittingDataTree without pipeli
         calls = [n for n in ast.walk(fn.node) if isinstance(n, ast.Call) and ast.unparse(n.func).split(".")[-1] == callee]
         got = [normalise_expr(fn.node, c.keywords, "pipeline_seed") for c in calls]
         u.static(f"flow.{label}", len(calls) >= 1 and all(g in want for g in got), fn.qualname, f"{callee}(pipeline_seed=...) receives {got}", witness={"site": label, "got": got}, replay=rp)
-    # the dask wrapper forwards its own parameter to the task function
+    # the dask wrapper forwards its own parameter to the task function (kwargs of apply_ufunc and the metadata run)
     fn = u.fn("pyxel/observation/observation_dask.py::run_pipelines_with_dask")
-    src = ast.unparse(fn.node).replace(" ", "")
-    u.static("flow.observation_dask.forward", "pipeline_seed=pipeline_seed" in src or "'pipeline_seed':pipeline_seed" in src, fn.qualname, "run_pipelines_with_dask forwards pipeline_seed to the task function")
-    fi = u.fn("pyxel/calibration/fitting_datatree.py::ModelFittingDataTree.__init__")
-    u.static("flow.calibration.stored", "self.pipeline_seed:int|None=pipeline_seed" in ast.unparse(fi.node).replace(" ", "") or "self.pipeline_seed=pipeline_seed" in ast.unparse(fi.node).replace(" ", ""),
-             fi.qualname, "ModelFittingDataTree stores the pipeline_seed it is given")
+    cs = DU.calls(fn.node, "apply_ufunc")
+    kd = DU.dict_arg(fn.node, next((k.value for k in cs[0].keywords if k.arg == "kwargs"), None)) if len(cs) == 1 else None
+    first = DU.calls(fn.node, "_run_pipelines_array_to_datatree")
+    ok_first = all(DU.kw_args(fn.node, c).get("pipeline_seed") == "pipeline_seed" for c in first)
+    u.static("flow.observation_dask.forward", kd is not None and kd.get("pipeline_seed") == "pipeline_seed" and ok_first, fn.qualname,
+             f"run_pipelines_with_dask forwards pipeline_seed to the task function: kwargs={kd}")
+
+
+# the calibration problem keeps the seed it is given and hands it to every exposure it runs: symbolic execution of the real
+# constructor and fitness method (units shared with C11)
+from . import C11 as _C11  # noqa: E402
+unit("C04", "calib.problem_keeps_seed")(_C11.init_unit)
+unit("C04", "calib.fitness_uses_seed")(_C11.fitness_sum)
 
 
 @unit("C04", "calib.island_seeds")
 def island_seeds(u: Unit):
     fb = u.fn("pyxel/calibration/archipelago_datatree.py::ArchipelagoDataTree._build")
-    src = ast.unparse(fb.node).replace(" ", "")
-    ok = "np.random.default_rng(seed=self.pygmo_seed)" in src and "seeds=[int(rng.integers(0,max_value))for_inrange(self.num_islands)]" in src and "executor.map(create_island,seeds)" in src
+    # every binding of the seed list that is not the all-None list draws from default_rng(seed=self.pygmo_seed), once per island
+    maps = [c for c in ast.walk(fb.node) if isinstance(c, ast.Call) and (ast.unparse(c.func) == "map" or ast.unparse(c.func).endswith(".map")) and len(c.args) == 2
+            and ast.unparse(c.args[0]) == "create_island"]
+    names = {ast.unparse(c.args[1]) for c in maps}
+    binds = []
+    for n in ast.walk(fb.node):
+        if isinstance(n, (ast.Assign, ast.AnnAssign)) and n.value is not None:
+            tgt = n.targets[0] if isinstance(n, ast.Assign) else n.target
+            if isinstance(tgt, ast.Name) and tgt.id in names:
+                binds.append(DU.norm(fb.node, n.value))
+    seeded = [b for b in binds if "None" not in b]
+    ok = len(maps) >= 1 and len(names) == 1 and len(seeded) >= 1 and all(
+        "np.random.default_rng(seed=self.pygmo_seed).integers(" in b and b.endswith("inrange(self.num_islands)]") for b in seeded)
     u.static("calib.island_seeds", ok, fb.qualname, "island seeds = default_rng(pygmo_seed).integers(...), mapped in order (executor.map is order-preserving)")
     fc = u.fn("pyxel/calibration/calibration.py::Calibration.run_calibration")
-    s2 = ast.unparse(fc.node)
-    ok2 = "pg.set_global_rng_seed(seed=self.pygmo_seed)" in s2 and s2.index("pg.set_global_rng_seed") < s2.index("ModelFittingDataTree(")
+    gs = DU.calls(fc.node, "set_global_rng_seed")
+    mk = DU.calls(fc.node, "ModelFittingDataTree")
+    seed_of = lambda c: (DU.kw_args(fc.node, c).get("seed") or (DU.pos_args(fc.node, c) or [None])[0])
+    ok2 = len(gs) >= 1 and len(mk) >= 1 and all(seed_of(c) in ("self.pygmo_seed", "self._pygmo_seed") for c in gs) and all(DU.before(gs[0], m) for m in mk)
     u.static("calib.global_seed_first", ok2, fc.qualname, "pg.set_global_rng_seed(self.pygmo_seed) precedes the creation of the problem and archipelago")
